@@ -227,6 +227,19 @@ func (s *rdSys) Apply(op string) (obs, sig, msg string) {
 		adv := mlatest
 		if s.mode == "C04" && !s.cfg.inC05Domain() {
 			adv = latest
+			if s.cfg.wrap && s.started {
+				// wrapping detector whose window exceeds half the space: "newest" is still defined by the
+				// half-space rule the property states - a number less than half the space ahead of the newest
+				// becomes the newest, one behind it does not (the band around exactly half is unconstrained)
+				M := s.m()
+				ahead := (seq + M - s.newest) % M
+				switch {
+				case ahead+1 >= M/2 && ahead <= M/2+1:
+					s.dead = true
+				default:
+					adv = ahead > 0 && ahead < M/2
+				}
+			}
 		}
 		s.accepted[seq] = true
 		if adv || !s.started {
@@ -349,20 +362,25 @@ func runRD(mode, tier string, shard, shards int, rep *SeqReport) {
 	sysOf := func(cfg rdCfg) *rdSys { return newRdSys(cfg, mode) }
 
 	// (i) closed state spaces of small configurations: BFS to a fixed point
-	for w := uint(0); w <= 6; w++ {
+	for w := uint(0); w <= 7; w++ {
 		var cfgs []rdCfg
-		for max := uint64(1); max <= 12; max++ {
-			cfgs = append(cfgs, rdCfg{false, w, max})
-		}
-		for max := uint64(7); max <= 20; max++ {
-			cfgs = append(cfgs, rdCfg{true, w, max})
+		if w <= 6 {
+			for max := uint64(1); max <= 12; max++ {
+				cfgs = append(cfgs, rdCfg{false, w, max})
+			}
+			for max := uint64(7); max <= 20; max++ {
+				cfgs = append(cfgs, rdCfg{true, w, max})
+			}
+		} else if mode == "C04" {
+			// wrapping detectors whose window is larger than half of / the whole sequence space
+			cfgs = append(cfgs, rdCfg{true, 8, 9}, rdCfg{true, 9, 9}, rdCfg{true, 12, 9}, rdCfg{true, 16, 9})
 		}
 		for _, cfg := range cfgs {
 			if mode == "C05" && !cfg.inC05Domain() {
 				continue
 			}
-			if mode == "C04" && cfg.wrap && !cfg.inC05Domain() {
-				continue // C04 on the wrapping detector is stated relative to the half-space rule
+			if mode == "C04" && cfg.wrap && cfg.max < 7 {
+				continue // below 8 numbers "less than half the space ahead" leaves almost nothing to require
 			}
 			if mode == "C04" && cfg.max > 9 {
 				continue // C04 keeps the full accepted set in the state: closed only for small maxima
@@ -376,7 +394,7 @@ func runRD(mode, tier string, shard, shards int, rep *SeqReport) {
 				for a := uint64(0); a <= cfg.max+1; a++ {
 					s.abs = append(s.abs, a)
 				}
-				s.deferred = mode == "C04" && cfg.max <= 7
+				s.deferred = mode == "C04" && cfg.max <= 7 && cfg.w <= 6
 				return s
 			}
 			depth := 64
